@@ -515,9 +515,16 @@ impl GridItem {
                     // relevant axis, the size suggestion is capped by those sizes; for this purpose, any indefinite percentages
                     // in these sizes are resolved against zero (and considered definite).
                     if self.is_compressible_replaced {
-                        let size = self.size.get(axis).maybe_resolve(Some(0.0), |val, basis| tree.calc(val, basis));
-                        let max_size =
-                            self.max_size.get(axis).maybe_resolve(Some(0.0), |val, basis| tree.calc(val, basis));
+                        let size = self
+                            .size
+                            .get(axis)
+                            .maybe_resolve(Some(0.0), |val, basis| tree.calc(val, basis))
+                            .maybe_add(box_sizing_adjustment.get(axis));
+                        let max_size = self
+                            .max_size
+                            .get(axis)
+                            .maybe_resolve(Some(0.0), |val, basis| tree.calc(val, basis))
+                            .maybe_add(box_sizing_adjustment.get(axis));
                         minimum_contribution = minimum_contribution.maybe_min(size).maybe_min(max_size);
                     }
 
